@@ -781,25 +781,23 @@ Section ALoc.
         match goal with |- context [match ?l ++ ?r with _ => _ end] => destruct (l ++ r) as [|e1 more] end.
         + apply loc_bind; [apply loc_push_type; cbn [hspan_ok]; auto|intros given_blob].
           apply loc_bind; [apply loc_var_ty|intros self_ty]. apply loc_bind; [now apply (loc_unify S G PG)|intros _].
-          apply loc_bind; [now apply loc_push_type|intros ret0].
           apply loc_bind.
-          { apply loc_iterM_in. intros fe Hin. pose proof (Forall_flat_in S _ fields _ H Hin) as Hfe. cbn beta in Hfe.
+          { apply loc_foldM_in. intros acc fe Hin. pose proof (Forall_flat_in S _ fields _ H Hin) as Hfe. cbn beta in Hfe.
             apply loc_bind; [now apply (al_expr R PR)|intros [iret ety]].
-            apply loc_bind; [now apply (loc_unify_option S G PG)|intros _].
+            apply loc_bind; [now apply (loc_unify_option S G PG)|intros acc'].
             destruct (flookup (fst fe) given) as [[gsp ft]|]; [|apply locQ_panic].
             apply loc_bind; [apply (loc_unify S G PG); now apply S_expr_span|intros; apply loc_ret]. }
-          intros _. apply loc_bind; [now apply (loc_unify S G PG)|intros; apply loc_ret].
+          intros ret0. apply loc_bind; [now apply (loc_unify S G PG)|intros; apply loc_ret].
         + intros s0 Gs0. cbn. inversion He; subst. split; assumption.
       - (* ECollection *)
         destruct c.
-        + apply loc_bind; [now apply loc_push_type|intros ret0].
+        + apply loc_bind.
+          { apply loc_foldM_in. intros acc v Hin. pose proof (Forall_flat_in S e_spans _ _ H Hin). ls. }
+          intros [ret0 tys]. ls.
+        + apply loc_bind; [now apply loc_push_type|intros inner].
           apply loc_bind.
-          { apply loc_mapM_in. intros v Hin. pose proof (Forall_flat_in S e_spans _ _ H Hin). ls. }
-          intros tys. ls.
-        + apply loc_bind; [now apply loc_push_type|intros inner]. apply loc_bind; [now apply loc_push_type|intros ret0].
-          apply loc_bind.
-          { apply loc_iterM_in. intros v Hin. pose proof (Forall_flat_in S e_spans _ _ H Hin). ls. }
-          intros _. ls.
+          { apply loc_foldM_in. intros acc v Hin. pose proof (Forall_flat_in S e_spans _ _ H Hin). ls. }
+          intros ret0. ls.
       - ls.
       - ls.
       - ls.
